@@ -264,7 +264,7 @@ class Broker:
                 if kind == "notional":
                     value = quantity * liq_price * contract.multiplier
                 elif kind == "liquidation":
-                    value = contract.cash_requirement * quantity * liq_price
+                    value = contract.cash_requirement * quantity * liq_price * contract.multiplier
                     value += self._holdings_margins[contract]
                 else:
                     raise ValueError("Unsupported 'kind'.")
